@@ -23,7 +23,7 @@ def hist(n, mq, mx):
     bt = ('two SmallVector<Elem,%d> objects A and B, initially empty; every history of two operations of any kind (%s), '
           'explored as a tree; element values and positions symbolic; sizes <= %d' % (n, kinds, mx))
     return {'name': 'history_n%d' % n, 'src': 'history.cpp', 'engine': 'cbmc',
-            'defs': {'VF_N': n, 'VF_OPS': 2, 'VF_MAX': mq, 'VF_FULL': 0}, 'unwind': mq + 2, 'timeout': 280,
+            'defs': {'VF_N': n, 'VF_OPS': 2, 'VF_MAX': mq, 'VF_FULL': 0}, 'unwind': mq + 2, 'timeout': 900,
             'rt_defs': {'VF_MALLOC_U32': 1, 'VF_MALLOC_CAP': 8}, 'leak_check': True, 'bounds': bq,
             'thorough': {'defs': {'VF_N': n, 'VF_OPS': 2, 'VF_MAX': mx, 'VF_FULL': 2}, 'unwind': mx + 2, 'timeout': 1700,
                          'bounds': bt}}
@@ -35,7 +35,7 @@ def align(a, n):
                 'concrete sizes <= %d; plain operator new places every block at ANY 16-aligned address (symbolic)'
                 % (a, n, ', heap->heap growth by push and by resize, pop, clear back to inline' if full else '', 2 * n + 2))
     return {'name': 'align%d_n%d' % (a, n), 'src': 'align.cpp', 'engine': 'cbmc',
-            'defs': {'VF_ALIGN': a, 'VF_N': n, 'VF_OPS': 1}, 'unwind': 2 * n + 4, 'timeout': 280,
+            'defs': {'VF_ALIGN': a, 'VF_N': n, 'VF_OPS': 1}, 'unwind': 2 * n + 4, 'timeout': 900,
             'rt_defs': {'VF_ADDR_AWARE': 1, 'VF_AA_DYNAMIC': 1}, 'bounds': b(False),
             'thorough': {'defs': {'VF_ALIGN': a, 'VF_N': n, 'VF_OPS': 2}, 'timeout': 1700, 'bounds': b(True)}}
 
